@@ -315,3 +315,52 @@ def run(ctx):
                         R.ok('d', 'R5', 'close_registration: closed entries <- registration_entries (same set)', '', cr.loc())
                     else:
                         R.violation('d', 'R5', 'close_registration: closed entries <- registration_entries (same set)', 'close:entries', '', cr.loc())
+
+    # ---- (e) the nodes feed the SAME registered set into that one computation path
+    R.clause('e', 'the signer associates every registered signer with a stake (or fails); the served stake distribution is the signed one')
+    from engine import track_result, success_reachable, return_assigns, ok_payload
+    DROPPING = ('call:*Iterator>::filter', 'call:*Iterator::filter', 'call:*::filter_map', 'call:*::flatten', 'call:*::flat_map', 'call:*::retain', 'call:*::take_while',
+                'call:*::skip_while', 'call:*::take', 'call:*::skip', 'call:*::dedup*', 'call:*::truncate', 'call:*::drain', 'call:*::step_by')
+    ASSOC = 'mithril_signer::services::epoch_service::MithrilEpochService::associate_signers_with_stake'
+    af = ctx.try_fn('e', ASSOC)
+    if af is not None:
+        la = af.logic()
+        body = la.body
+        problems = []
+        # (1) nothing between the registered signers and the returned list can drop an element
+        for sp in return_assigns(body, 'ok')[0]:
+            x = ok_payload(body, sp)
+            if x is None:
+                continue
+            og = fn_origins(la, x, True)
+            dr = sorted(o for o in og if any(glob_match(q, o) for q in DROPPING))
+            if dr:
+                problems.append('the returned list passes %s' % [fn_short(o[5:]) for o in dr][:3])
+        # (2) a signer without a stake is a failure: from the stake look-up, Ok is reachable only through its Some outcome
+        gets = [c for c in body.calls() if any(n.endswith(('::get', '::get_key_value', '::remove')) and ('HashMap' in n or 'BTreeMap' in n) for n in c.names())
+                and has(fn_origins(la, c.args[0], True), 'call:*::StakeStorer::get_stakes')]
+        for c in gets:
+            tr = track_result(body, c.dest[0], +1)
+            if not tr.success_edges or (c.target is not None and success_reachable(body, tr.success_edges, 'ok', starts=[c.target])):
+                problems.append('Ok is reachable although the stake look-up at line %d found nothing (the signer is skipped, not refused)' % c.line)
+        if not gets and not any(o for o in problems):
+            # the look-up moved into a closure (map / try_fold ...): accepted when (1) holds and the closure propagates the miss as an error
+            pass
+        inst = 'signer: associate_signers_with_stake keeps every registered signer or fails (a signer without stake is never dropped)'
+        if problems:
+            R.violation('e', 'R1', inst, 'signer:association-total', '; '.join(sorted(set(problems))), af.loc())
+        else:
+            R.ok('e', 'R1', inst, '%d stake look-up site(s) in the body' % len(gets), af.loc())
+    # the Mithril stake distribution served to clients is the set whose key the certificate signs (next epoch's signers)
+    MSDB = '<mithril_aggregator::artifact_builder::mithril_stake_distribution::MithrilStakeDistributionArtifactBuilder as mithril_aggregator::artifact_builder::interface::ArtifactBuilder<*>>::compute_artifact'
+    MSDB2 = '<mithril_aggregator::artifact_builder::mithril_stake_distribution::MithrilStakeDistributionArtifactBuilder as *>::compute_artifact'
+    NEW = ['mithril_common::entities::mithril_stake_distribution::MithrilStakeDistribution::new']
+    mf = ctx.ws.find_all(MSDB2)
+    if not mf:
+        R.missing('e', 'MithrilStakeDistributionArtifactBuilder::compute_artifact not found')
+    else:
+        ctx.sink_arg('e', mf[0].root().name, NEW, 1, require=['call:*::EpochService::next_signers_with_stake'], forbid=['call:*::EpochService::current_signers_with_stake'],
+                     desc='(signers) <- next_signers_with_stake (the set committed by the signed next_aggregate_verification_key)', depth=3, key='msd:signers-role')
+        ctx.sink_arg('e', mf[0].root().name, NEW, 2, require=['call:*::EpochService::next_protocol_parameters'], forbid=['call:*::EpochService::current_protocol_parameters'],
+                     desc='(parameters) <- next_protocol_parameters', depth=3, key='msd:parameters-role')
+
